@@ -529,6 +529,7 @@ void MEDDLY::address_array::expand(size_t ns)
             data64 = d;
         } else {
             shrink64to32(ns);
+            memset(data32 + size, 0, (ns-size) * sizeof(unsigned int) );
         }
     }
 
